@@ -164,16 +164,32 @@ def _caches_and_globals():
     return caches, globs
 
 
+class _Id:
+    """Identity token that keeps the object alive (so that ids cannot be reused between the two fingerprints)."""
+    __slots__ = ('o',)
+
+    def __init__(self, o):
+        self.o = o
+
+    def __eq__(self, other):
+        return isinstance(other, _Id) and self.o is other.o
+
+    def __hash__(self):
+        return id(self.o)
+
+
 def _fingerprint(d):
     import pjrpc
     caches, globs = _caches_and_globals()
     fp = {
-        'registry': [(k, id(v)) for k, v in d.registry.items()],
-        'middlewares': [id(m) for m in d._middlewares],
-        'handlers': sorted((repr(k), [id(h) for h in v]) for k, v in d._error_handlers.items()),
-        'errors_mapping': sorted((k, id(v)) for k, v in type(pjrpc.exc.JsonRpcError).__errors_mapping__.items()),
+        'registry': [(k, _Id(v)) for k, v in d.registry.items()],
+        'middlewares': [_Id(m) for m in d._middlewares],
+        'dispatcher_attrs': sorted(((k, _Id(v)) for k, v in vars(d).items()), key=lambda t: t[0]),
+        'registry_attrs': sorted(((k, _Id(v)) for k, v in vars(d.registry).items()), key=lambda t: t[0]),
+        'handlers': sorted(((repr(k), [_Id(h) for h in v]) for k, v in d._error_handlers.items()), key=lambda t: t[0]),
+        'errors_mapping': sorted(((k, _Id(v)) for k, v in type(pjrpc.exc.JsonRpcError).__errors_mapping__.items()), key=lambda t: t[0]),
         'caches': {k: c.cache_info().currsize for k, c in caches.items()},
-        'globals': {k: (len(v), sorted(id(x) for x in (v.values() if isinstance(v, dict) else v))) for k, v in globs.items()},
+        'globals': {k: (len(v), [_Id(x) for x in (v.values() if isinstance(v, dict) else v)]) for k, v in globs.items()},
     }
     return fp
 
@@ -212,11 +228,10 @@ def _step(env, ob, make_doc):
     env.reached()
     changed = _diff(before, after)
     if changed:
-        detail = {k: (before[k], after[k]) for k in changed}
         if 'caches' in changed:
             grown = [k for k in before['caches'] if before['caches'][k] != after['caches'].get(k)]
             raise Violation('cache-grew:' + ','.join(grown), doc)
-        raise Violation('library-state-changed:' + ','.join(changed), (doc, detail))
+        raise Violation('library-state-changed:' + ','.join(changed), doc)
     # probe: answered as on a fresh dispatcher
     pm = env.str('probe.method')
     pp = {'x': env.int('probe.x')} if env.bool('probe.named') else [env.int('probe.x')]
